@@ -347,43 +347,121 @@ func zzvNewDyn(ds ipld.DAGService, em SizeEstimationMode, maxLinks, fanout, thre
 	return d
 }
 
-// HarnessC16Histories: K edits (add/replace with one of two nodes of different CID length, or remove) over the pool
-// on a DynamicDirectory whose per-directory threshold sits at the size of {a,b -> small node} -1/0/+1 (symbolic);
-// after every edit all enumeration APIs agree with a map model and the directory is sharded exactly when the
-// documented rule says so; at the end the root is compared with a fresh build of the final entry set (names in
-// ascending order) under the same configuration, and the root is re-loaded and listed.
+// zzvInitialSets: entry subsets of the three-name pool (bit i = pool name i) in the order the tiers take them: the
+// sets with two or three entries first (they have sub-shards under the collision tables), then the rest.
+var zzvInitialSets = []int{7, 5, 3, 6, 1, 4, 2, 0}
+
+// HarnessC16Histories: bounded edit histories on a DynamicDirectory, three families chosen by the engine.
+// Family 0 (size boundary): K edits (add/replace with one of two nodes of different CID length, or remove) over the
+// three-name pool; the per-directory threshold sits at the size of {a,b -> small node} -1/0/+1 (symbolic); max-links 0
+// (or 2 in the thorough tier).
+// Family 1 (link-count boundary): LK steps over LPOOL names with max-links 1..LMAXLINKS and a threshold far away
+// (2^20), so that only the link count decides; a step is add/replace with one of two nodes of EQUAL CID length and
+// Tsize width (an overwrite changes the value but not the size), remove, or - without hash collisions - a
+// serialize/load boundary (GetNode, NewDirectoryFromNode, settings re-applied).
+// Family 2 (sharded across reloads): an entry subset chosen by the engine is built, serialized and loaded again, so
+// every child is an unloaded link; then RK steps (add, replace, remove, or another serialize/load boundary) with a
+// symbolic threshold 4..30 below the size of any single entry, i.e. the directory stays sharded until it is empty.
+// After every edit the directory is sharded exactly when the documented rule says so (and, in families 0 and 2, all
+// enumeration APIs agree with a map model); at the end all enumeration APIs agree with the model, the root (type and
+// CID) is compared with a fresh build of the final entry set (names in ascending order) under the same configuration,
+// and the root is re-loaded and listed.
 func HarnessC16Histories() {
 	ctx := context.Background()
 	ds := &zzvDag{}
-	tbl := zzvTables[verifrt.NondetRange("table", 0, verifrt.Param("TABLES", 2)-1)]
+	variant := verifrt.NondetRange("variant", 0, verifrt.Param("VARIANTS", 3)-1)
+	ntables := verifrt.Param("TABLES", 2)
+	if variant == 1 {
+		ntables = verifrt.Param("LTABLES", 1)
+	}
+	table := verifrt.NondetRange("table", 0, ntables-1)
+	tbl := zzvTables[table]
 	zzvHashTable = map[string][]byte{}
 	for i, n := range zzvPool {
 		zzvHashTable[n] = tbl[i]
 	}
 	defer hamtHashHook()()
-	nodes := []*zzvChild{{c: zzvCid(0, 0xA1), size: 5}, {c: zzvCid(6, 0xA2), size: 300}}
+	nodes := []*zzvChild{{c: zzvCid(0, 0xA1), size: 5}, {c: zzvCid(6, 0xA2), size: 300}, {c: zzvCid(0, 0xA3), size: 7}}
 	for _, n := range nodes {
 		ds.Add(ctx, n)
 	}
-	em := SizeEstimationMode(verifrt.NondetRange("em", 0, verifrt.Param("MODES", 3)-1))
-	maxLinks := 2 * verifrt.NondetRange("maxlinks2", 0, verifrt.Param("MAXLINKS", 1))
 	fanout := 8
-	base := zzvRuleSize(em, map[string]int{"a": 0, "b": 0}, nodes)
-	if em == SizeEstimationDisabled {
-		base = 100
+	var em SizeEstimationMode
+	var maxLinks, threshold, k int
+	pool := zzvPool
+	targets := [2]int{0, 1}
+	nops := 3 // add target 0, add target 1, remove (+ serialize/load boundary where enabled)
+	initial := 0
+	switch variant {
+	case 0:
+		em = SizeEstimationMode(verifrt.NondetRange("em", 0, verifrt.Param("MODES", 3)-1))
+		maxLinks = 2 * verifrt.NondetRange("maxlinks2", 0, verifrt.Param("MAXLINKS", 1))
+		base := zzvRuleSize(em, map[string]int{"a": 0, "b": 0}, nodes)
+		if em == SizeEstimationDisabled {
+			base = 100
+		}
+		threshold = zzvBounded("threshold", base-1, base+1)
+		k = verifrt.Param("K", 2)
+	case 1:
+		em = SizeEstimationMode(verifrt.NondetRange("em", 0, verifrt.Param("LMODES", 1)-1))
+		maxLinks = verifrt.NondetRange("maxlinks", 1, verifrt.Param("LMAXLINKS", 1))
+		threshold = 1 << 20
+		k = verifrt.Param("LK", 3)
+		pool = zzvPool[:verifrt.Param("LPOOL", 2)]
+		targets = [2]int{0, 2}
+		if table == 0 {
+			// a HAMT loaded from a node counts root links, not entries; with colliding names and max-links set that
+			// is HarnessC16Downgrade's subject (known finding C16.down-op-ok), so reloads need collision-free names
+			nops = 3 + verifrt.Param("LRELOAD", 1)
+		}
+	default:
+		em = SizeEstimationMode(verifrt.NondetRange("em", 0, verifrt.Param("RMODES", 1)-1))
+		// 4..30: at least the 4-byte Data field the block estimate gives an empty directory (an empty directory is
+		// basic under the rule), below the size of any single entry (>= 35)
+		threshold = zzvBounded("threshold", 4, 30)
+		k = verifrt.Param("RK", 1)
+		nops = 3 + verifrt.Param("RRELOAD", 0)
+		initial = zzvInitialSets[verifrt.NondetRange("initial", 0, verifrt.Param("INITIALS", 4)-1)]
 	}
-	threshold := zzvBounded("threshold", base-1, base+1)
 	d := zzvNewDyn(ds, em, maxLinks, fanout, threshold)
 	model := map[string]int{}
-	k := verifrt.Param("K", 2)
+	reload := func() {
+		// serialize / load boundary: what follows runs on a directory whose children are unloaded links
+		mid, err := d.GetNode()
+		verifrt.Assert("C16.hist-getnode-ok", err == nil)
+		ds.Add(ctx, mid)
+		sharded := zzvIsHAMT(d)
+		d, err = NewDirectoryFromNode(ds, mid)
+		verifrt.Assert("C16.hist-reload-ok", err == nil)
+		verifrt.Assert("C16.hist-reload-keeps-root-type", zzvIsHAMT(d) == sharded)
+		// the node carries neither max-links nor the threshold nor the estimation mode: set them the way MFS does
+		d.SetMaxLinks(maxLinks)
+		d.SetMaxHAMTFanout(fanout)
+		d.SetSizeEstimationMode(em)
+		d.SetHAMTShardingSize(threshold)
+	}
+	if variant == 2 {
+		for i, name := range zzvPool {
+			if initial>>i&1 == 1 {
+				verifrt.Assert("C16.hist-add-ok", d.AddChild(ctx, name, nodes[i&1]) == nil)
+				model[name] = i & 1
+			}
+		}
+		verifrt.Assert("C16.sharded-when-rule-says-sharded", zzvIsHAMT(d) == (len(model) > 0))
+		reload()
+	}
 	for i := 0; i < k; i++ {
-		name := zzvPool[verifrt.NondetRange("name", 0, len(zzvPool)-1)]
-		op := verifrt.NondetRange("op", 0, 2)
+		op := verifrt.NondetRange("op", 0, nops-1)
+		if op == 3 {
+			reload()
+			continue
+		}
+		name := pool[verifrt.NondetRange("name", 0, len(pool)-1)]
 		wasHAMT := zzvIsHAMT(d)
 		if op < 2 {
-			err := d.AddChild(ctx, name, nodes[op])
+			err := d.AddChild(ctx, name, nodes[targets[op]])
 			verifrt.Assert("C16.hist-add-ok", err == nil)
-			model[name] = op
+			model[name] = targets[op]
 		} else {
 			err := d.RemoveChild(ctx, name)
 			if _, ok := model[name]; ok {
@@ -393,7 +471,9 @@ func HarnessC16Histories() {
 			}
 			delete(model, name)
 		}
-		zzvCheckAgainstModel(ctx, "live", d, model, nodes)
+		if variant != 1 {
+			zzvCheckAgainstModel(ctx, "live", d, model, nodes)
+		}
 		size := zzvRuleSize(em, model, nodes)
 		want := maxLinks > 0 && len(model) > maxLinks
 		if em != SizeEstimationDisabled && size > threshold {
@@ -415,6 +495,9 @@ func HarnessC16Histories() {
 		} else {
 			verifrt.Assert("C16.basic-when-rule-says-basic", !zzvIsHAMT(d))
 		}
+	}
+	if variant == 1 {
+		zzvCheckAgainstModel(ctx, "live", d, model, nodes)
 	}
 	root, err := d.GetNode()
 	verifrt.Assert("C16.hist-getnode-ok", err == nil)
